@@ -7,4 +7,7 @@ open Distill.Gen
 theorem fam2_cells : ∀ c ∈ allCells, cellOk fam2 c.1 c.2 = true := by
   decide +kernel
 
+theorem fam2_bare : ∀ n ∈ allN, bareOk fam2 n = true := by
+  decide +kernel
+
 end Distill.C17
